@@ -14,6 +14,7 @@ import (
 	"path/filepath"
 	"regexp"
 	"sort"
+	"strconv"
 	"strings"
 	"testing"
 	"unicode"
@@ -24,6 +25,7 @@ import (
 	"github.com/sourcegraph/zoekt"
 	"github.com/sourcegraph/zoekt/index"
 	"github.com/sourcegraph/zoekt/internal/verifkit/kit"
+	"github.com/sourcegraph/zoekt/query"
 	"github.com/sourcegraph/zoekt/search"
 	"github.com/sourcegraph/zoekt/web"
 )
@@ -201,6 +203,16 @@ var fileTpls = []string{
 	`{{.Path | printf "%q"}}`,
 	``,
 	`https://example.com/zqktz`,
+	// parse, but fail when executed (the builder only validates parsing)
+	`{{.Path.Missing}}`,
+	`https://example.com/zqktz/{{index .Path 99999}}`,
+	`{{.Version.X}}/{{.Path}}`,
+	`{{template "nope" .}}`,
+}
+
+// failingTpl reports whether a URL template of the pools cannot be executed.
+func failingTpl(t string) bool {
+	return strings.Contains(t, ".Missing") || strings.Contains(t, "99999") || strings.Contains(t, ".Version.X") || strings.Contains(t, `template "nope"`) || strings.Contains(t, ".Nope")
 }
 
 var lineTpls = []string{
@@ -210,6 +222,8 @@ var lineTpls = []string{
 	``,
 	`#zqktz-{{.LineNumber}}`,
 	`?line={{.LineNumber}}`,
+	`#L{{.LineNumber.Missing}}`,
+	`#L{{index .LineNumber 99999}}`,
 }
 
 var commitTpls = []string{
@@ -220,6 +234,9 @@ var commitTpls = []string{
 	`{{.Name}}:{{.Version}}`,
 	`/zqktz?b={{.Name}}&v={{.Version}}`,
 	``,
+	`{{.Version.X}}`,
+	`https://example.com/zqktz/{{.Nope}}`,
+	`{{index .Name 99999}}`,
 }
 
 var plainWords = []string{"func", "main", "return", "if", "x", "y", "err", "nil", "", "  ", "\t"}
@@ -950,7 +967,58 @@ func target(rq *c36Req) string {
 	return sb.String()
 }
 
+// isRepoList mirrors the dispatch of /search: a query of only r: atoms, or
+// type:repo at the top, lists repositories.
+func isRepoList(u *url.URL) bool {
+	q, err := query.Parse(u.Query().Get("q"))
+	if err != nil {
+		return false
+	}
+	repoOnly := true
+	query.VisitAtoms(q, func(a query.Q) {
+		_, ok := a.(*query.Repo)
+		repoOnly = repoOnly && ok
+	})
+	if repoOnly {
+		return true
+	}
+	qt, ok := q.(*query.Type)
+	return ok && qt.Type == query.TypeRepo
+}
+
+// legit418 says why the UI may answer this request with its plain-text error
+// ("" = it may not: the request is valid and has to be rendered).
+func legit418(u *url.URL) string {
+	qv := u.Query()
+	switch u.Path {
+	case "/print":
+		return "print" // unknown or ambiguous file
+	case "/search":
+		if qv.Get("q") == "" {
+			return "no query"
+		}
+		if _, err := query.Parse(qv.Get("q")); err != nil {
+			return "query does not parse"
+		}
+		if isRepoList(u) {
+			switch qv.Get("order") {
+			case "", "name", "revname", "size", "revsize", "ram", "revram", "time", "revtime":
+				return ""
+			}
+			return "bad order"
+		}
+		if c := qv.Get("ctx"); c != "" {
+			if n, err := strconv.Atoi(c); err != nil || n < 0 || n > 10 {
+				return "bad ctx"
+			}
+		}
+		return ""
+	}
+	return "" // entry page, about
+}
+
 type c36Env struct {
+	commitTplFails bool // some repository has a commit URL template that cannot be executed
 	rec   *kit.Recorder
 	shape *pageShape
 	c     *c36Case
@@ -990,7 +1058,15 @@ func (e *c36Env) fetch(tgt string, what string) (*pageResult, error) {
 			return nil, kit.Fail("error-page-not-plain", "GET %s: status %d with Content-Type %q nosniff=%q", tgt, rr.Code, ct, rr.Header().Get("X-Content-Type-Options"))
 		}
 		msg := string(body)
-		if strings.HasPrefix(msg, "template:") || strings.HasPrefix(msg, "html/template:") || strings.Contains(msg, "executing \"") {
+		if why := legit418(u); why == "" {
+			// a request the UI has to answer with a page: the error can only come from rendering
+			d := kit.Fail("render-failed", "GET %s: status 418 for a valid request: %s", tgt, clip(msg))
+			if u.Path == "/search" && strings.Contains(msg, "template:") && strings.Contains(msg, "executing") && e.commitTplFails && isRepoList(u) {
+				d.Known = "C36-commit-template-exec-error"
+			}
+			return nil, d
+		}
+		if strings.HasPrefix(msg, "template:") || strings.HasPrefix(msg, "html/template:") {
 			return nil, kit.Fail("render-failed", "GET %s: %s", tgt, clip(msg))
 		}
 		p.kind = "error"
@@ -1128,6 +1204,17 @@ func runC36(rec *kit.Recorder, shape *pageShape, c c36Case) error {
 	}
 	e := &c36Env{rec: rec, shape: shape, c: &c, mux: mux,
 		ckey: fmt.Sprintf("%x", kit.Checksum([]byte(fmt.Sprintf("%v %+v", c.Print, c.Repos))))}
+	for _, r := range c.Repos {
+		if failingTpl(string(r.CommitTpl)) {
+			e.commitTplFails = true
+		}
+		if failingTpl(string(r.FileTpl)) || failingTpl(string(r.LineTpl)) {
+			rec.Label("repo:file-or-line-template-fails-at-execute")
+		}
+	}
+	if e.commitTplFails {
+		rec.Label("repo:commit-template-fails-at-execute")
+	}
 	anyNT := false
 	for i := range c.Reqs {
 		rq := &c.Reqs[i]
